@@ -21,8 +21,8 @@ func TestTqvWitness(t *testing.T) {
 	next.SeqNo = 1
 	h, err := s.get(next)
 	out := map[string]interface{}{
-		"obligation": "tacquito.sessions.get/post#3",
-		"scenario":   "set(seq 255); update(seq 256, continuation); get(seq 1)",
+		"obligation":  "tacquito.sessions.get/post#3",
+		"scenario":    "set(seq 255); update(seq 256, continuation); get(seq 1)",
 		"stored_last": 256, "current": 1,
 		"handler_returned": h != nil, "error": fmt.Sprint(err),
 		"violated": err == nil,
